@@ -94,10 +94,12 @@ func sameImage(name string, a, b []byte) bool {
 }
 
 type scopeRec struct {
-	snapSeq  int
+	snapSeq  int // start of the rollback scope (seq of the issuing instruction / host event)
 	snapLogs int
 	enterSeq int
 	cause    string
+	creator  common.Address
+	isCreate bool
 }
 
 func causeOf(errText string, injected string) string {
@@ -191,6 +193,9 @@ func treeRun(sc *Scenario) *TreeOut {
 	var muts []mutRec
 	var scopes []scopeRec
 	pendSnap, pendLogs := -1, 0
+	// the rollback scope of a frame starts at the instruction (or host event) that issued it -
+	// independently of where the system under test takes its snapshot
+	issueSeq, issueLogs, logCount := -1, 0, 0
 	injected := ""
 	jpFailed := ""
 	nodeHash := map[*avm.Call]uint64{}
@@ -202,9 +207,18 @@ func treeRun(sc *Scenario) *TreeOut {
 			if isJournalOp(e.Op) && e.Err == "" {
 				t.captureJournal(e)
 			}
+			if isCallOp(e.Op) && e.Err == "" {
+				issueSeq, issueLogs = e.Seq, logCount
+			}
+		case evHost:
+			if e.Name == "top" || e.Name == "staticCall" {
+				issueSeq, issueLogs = e.Seq, logCount
+			}
 		case evTxBegin:
 			scopes = scopes[:0]
 			pendSnap = -1
+			issueSeq = -1
+			logCount = len(env.St.Logs())
 			injected = ""
 			jpFailed = ""
 		case evInject:
@@ -225,7 +239,10 @@ func treeRun(sc *Scenario) *TreeOut {
 			switch e.Name {
 			case "Snapshot":
 				pendSnap, pendLogs = e.Seq, int(e.N2)
-			case "Revert", "Log":
+			case "Log":
+				logCount = int(e.N)
+			case "Revert":
+				logCount = int(e.N2)
 			default:
 				muts = append(muts, mutRec{seq: e.Seq, name: e.Name, a: e.From, key: e.Key, pre: e.Val, post: e.Val2})
 			}
@@ -233,8 +250,16 @@ func treeRun(sc *Scenario) *TreeOut {
 			if e.Typ == 0xff {
 				scopes = append(scopes, scopeRec{snapSeq: -1, enterSeq: e.Seq})
 			} else {
-				scopes = append(scopes, scopeRec{snapSeq: pendSnap, snapLogs: pendLogs, enterSeq: e.Seq})
-				pendSnap = -1
+				sr := scopeRec{snapSeq: issueSeq, snapLogs: issueLogs, enterSeq: e.Seq}
+				if issueSeq < 0 {
+					sr.snapSeq, sr.snapLogs = pendSnap, pendLogs
+				}
+				if e.Create || e.Typ == 0xf0 || e.Typ == 0xf5 {
+					// the creator's nonce increment is the one effect of a create that survives its failure
+					sr.creator, sr.isCreate = e.From, true
+				}
+				scopes = append(scopes, sr)
+				pendSnap, issueSeq = -1, -1
 			}
 		case evEnd, evExit:
 			if len(scopes) == 0 {
@@ -254,6 +279,9 @@ func treeRun(sc *Scenario) *TreeOut {
 				for i := range muts {
 					m := &muts[i]
 					if m.seq < s.snapSeq || seen[m.loc()] {
+						continue
+					}
+					if s.isCreate && m.name == "Nonce" && m.a == s.creator {
 						continue
 					}
 					seen[m.loc()] = true
@@ -356,7 +384,7 @@ func swallowedSite(s string) string {
 	}
 	for i, l := range lines {
 		tl := strings.TrimSpace(l)
-		if strings.HasPrefix(tl, "/repo/") && i > 0 {
+		if strings.HasPrefix(tl, repoPrefix) && i > 0 {
 			fn := strings.TrimSpace(lines[i-1])
 			if p := strings.LastIndex(fn, "("); p > 0 {
 				fn = fn[:p]
@@ -512,6 +540,9 @@ func (t *TreeOut) checkPreserve(muts []mutRec) {
 			order = append(order, m.loc())
 		}
 		f := owner(m.seq)
+		if f != nil && (f.Create || f.Typ == 0xf0 || f.Typ == 0xf5) && m.name == "Nonce" && m.a == f.From && m.seq < f.EnterSeq {
+			f = f.Parent // the creator's nonce increment is not part of the create frame's rollback scope
+		}
 		committed := true
 		for g := f; g != nil; g = g.Parent {
 			if g.SnapSeq >= 0 && g.Err != "" {
